@@ -22,7 +22,7 @@ var whoMayCall = map[string]struct {
 	why     string
 }{
 	"(*net/http.Client).Do": {[]string{"queryer.(*MultiOpQueryer).sendRequest"},
-		"single HTTP send point; retry/duplication of downstream requests would have to appear here (C06, C11, C12)"},
+		"single HTTP send point; a retry written in this module would have to appear here (C06, C11, C12). Not covered: net/http itself re-sends the POST body when the service answers 307/308 (no CheckRedirect is set) — a redirect is the service's own instruction, so the claim is about sends the gateway decides on (audit: observed, 3 deliveries for a 307 chain)"},
 	"(github.com/gobwas/ws.Dialer).Dial": {[]string{"queryer.(*MultiOpQueryer).Subscribe"},
 		"single upstream websocket dial point (C17, C18)"},
 	"github.com/buildbuildio/pebbles/queryer.Queryer.Query": {[]string{"executor.(*DepthExecutor).executeRequests", "introspection.introspectRemoteSchema"},
@@ -52,7 +52,7 @@ var goSites = map[string]tabEntry{
 	"common.AsyncMapReduce":                  {2, "workers and the single reducer of the fan-out helper (protocol checked by R1)"},
 	"queryer.(*MultiOpQueryer).Subscribe":    {2, "upstream closer and upstream reader (R8)"},
 	"pebbles.(subscriptionDict).Clean":       {1, "Close() of a stopped subscription runs detached so that the handler loop is not blocked (R8)"},
-	"pebbles.(*Gateway).subscriptionHandler": {2, "heartbeat and one Listen goroutine per subscription (R8)"},
+	"pebbles.(*Gateway).subscriptionHandler": {2, "one heartbeat per connection_init (all cancelled when the handler returns) and one Listen goroutine per start; a start that reuses an id first stops the entry it replaces (repair bf39264, rule R8e), so every Listen stays reachable for stop/terminate/teardown"},
 }
 
 func ruleCallers(filter func(callee string) bool) ruleFn {
